@@ -48,6 +48,16 @@ def make(rng, kind):
             cfg["simulation"]["markets"].append("IDX2")
             allm.append("IDX2")
             p0s.append(176.0)
+    if has_index and "IDX2" not in cfg and rng.random() < 0.3:
+        # a built-in ArbitrageAgent (high-frequency) that may trade the index and only SOME of its components; it never acts
+        # (threshold out of reach) - looking at an index does not change the index (equal shares: the agent insists on that)
+        for n in cfg["IDX"]["markets"]:
+            cfg[n]["outstandingShares"] = 100
+        cfg["ARBX"] = {"class": "ProbeArbitrageAgent", "numAgents": 1, "markets": ["IDX", cfg["IDX"]["markets"][0]], "assetVolume": 10,
+                       "cashAmount": 10000, "orderVolume": 1, "orderThresholdPrice": 1e9}
+        cfg["simulation"]["agents"] = ["N", "H", "ARBX"]
+    elif has_index and len(cfg["IDX"]["markets"]) >= 2 and rng.random() < 0.2:
+        cfg[rng.choice(cfg["IDX"]["markets"])]["outstandingShares"] = 0      # a declared weight of zero is a weight
     wide = kind in ("plimit", "halt", "haltx", "haltm", "mixed")
     spread = rng.choice([40, 80, 120]) if wide else rng.choice([2, 4, 8])
     script = {"pEmpty": rng.choice([0.0, 0.2]), "pCancel": 0.1, "pMarket": rng.choice([0.0, 0.15]), "maxBatch": rng.choice([1, 2]),
@@ -118,12 +128,22 @@ def make(rng, kind):
                              "orderTimeLength": rng.choice([1, 3, 10]), "enabled": enabled}
             elif kd == "plimit":
                 tg = rng.sample(names, rng.randint(1, len(names)))
+                if rng.random() < 0.12:
+                    tg = []                 # a rule without targets limits nothing
                 cfg[name] = {"class": "PriceLimitRule", "targetMarkets": tg, "triggerChangeRate": rng.choice([0.125, 0.25, 0.0625]),
                              "enabled": enabled}
             elif kd == "halt":
                 tg = rng.sample(names, rng.randint(1, len(names)))
                 cfg[name] = {"class": "TradingHaltRule", "targetMarkets": tg, "triggerChangeRate": rng.choice([0.125, 0.0625, 0.25]),
                              "haltingTimeLength": rng.choice([1, 2, 3] if kind != "haltx" else [3, 4, 6]), "enabled": enabled or kind == "haltx"}
+            if kd == "plimit" and name in cfg and rng.random() < 0.35:
+                # another event with a hook LISTED FOR A TIME on the same kind of occurrence (an order mistake shock, on a market
+                # the rule does not target when there is one), registered BEFORE the rule: the rule still sees every order
+                others = [x for x in allm if x not in cfg[name]["targetMarkets"]] or list(allm)
+                mname = "X%d" % n_ev
+                cfg[mname] = {"class": "OrderMistakeShock", "target": rng.choice(others), "triggerTime": rng.randint(0, steps - 1),
+                              "priceChangeRate": rng.choice([0.5, -0.5]), "orderVolume": 3, "orderTimeLength": 2, "enabled": True}
+                sess.setdefault("events", []).append(mname)
             if name in cfg and kd in ("fshock", "mistake") and rng.random() < 0.3:
                 # the event is declared through a template it extends: its own keys win, falsy ones ("enabled": false,
                 # "triggerTime": 0) included
